@@ -380,6 +380,12 @@ func runC04(c *Ctx) {
 
 	// ---------- O-4 deregistration on every exit ----------
 	c.checkDeregistration(le)
+	// the heaps, the id map and Snowflake.index are touched only under snowflakeLock (C02's unique-holder rows):
+	// an unlocked emptiness test followed by a locked Pop panics inside the handler when the last proxy times out
+	c.prefix = c.prefix + "O-7/C02:"
+	c.checkBrokerMatchingRows()
+	c.checkBrokerLoopProvenance()
+	c.prefix = strings.TrimSuffix(c.prefix, "O-7/C02:")
 	// the claimed test (index == -1) is only as good as the heap's index bookkeeping (C03's heap-shape obligations)
 	c.prefix = c.prefix + "O-6/C03:"
 	c.checkHeapShape()
